@@ -183,7 +183,7 @@ def length_guard(ctx, kind: str) -> None:
     raw_it = hn.ast.iter
     while isinstance(raw_it, ast.Call) and call_fname(raw_it) == "enumerate" and raw_it.args:
         raw_it = raw_it.args[0]
-    raw_args = list(raw_it.args) if isinstance(raw_it, ast.Call) and call_fname(raw_it) == "zip" else []
+    raw_args = [a_ for _n, a_ in LL.loop_sequence_exprs(fv, head)]
     for a in raw_args:
         ra = fv.res.resolve(a, head)
         if _loop_param_seq(fv, ra) in ("wells", "volumes"):
@@ -293,10 +293,8 @@ def _anchor_terms(ctx, fv) -> List[Tuple[str, int, ast.AST]]:
         stores = [s for s in LL.analyse_stores(ctx, fv) if s.loop_head is not None]
         if stores:
             head = stores[0].loop_head
-            it = fv.cfg.nodes[head].ast.iter
-            if isinstance(it, ast.Call) and call_fname(it) == "zip":
-                for i, a in enumerate(it.args[:2]):
-                    out.append((f"zip[{i}]", head, a))
+            for i, (nid, a) in enumerate(LL.loop_sequence_exprs(fv, head)[:2]):
+                out.append((f"zip[{i}]", nid, a))
         return out
     for cs in fv.calls():
         if cs.callee.kind != "func":
